@@ -441,6 +441,13 @@ func runStream(res *vh.Result, rp replay, verbose bool) string {
 				dk, da := descOf(l.Desc())
 				got = decision{indexOf(types, l.Type()), ruleID(l.Limit(), l.Burst()), dk, da, checksumOf(l.Checksum())}
 				obs = nlist(got.Type, got.Rule, got.DescKind, got.DescArg, got.Checksum, w.gen(l.Limiter))
+				// enforcement of the two rules without a bucket
+				if got.Rule == ruleZero && rr.Allowed {
+					res.Fail("limit-all-allowed", at+"a request decided by the limit-all rule (0) was allowed", rp)
+				}
+				if got.Rule == ruleNoLimit && !rr.Allowed {
+					res.Fail("nolimit-denied", at+"a request decided by the nolimit rule was denied", rp)
+				}
 				// what Func reports must be the limiter it used
 				rk, ra := descOf(rr.RulesetDesc)
 				if indexOf(types, rr.RulesetType) != got.Type || ruleFromHuman(rr.Limiter) != got.Rule || rk != dk || ra != da {
